@@ -4,14 +4,19 @@
  * gh_c is the client object under verification (every enforced contract requires self == gh_c), so that callees that do
  * not receive the client (the listeners' handleElement) can still speak about its socket and configuration. */
 QXmppOutgoingClient *gh_c;
-int gh_sent;          /* payloads handed to XmppSocket::sendData */
-int gh_sent_last;     /* class (XML_<T>) of the last one */
-int gh_disconnects;   /* XmppSocket::disconnectFromHost calls */
-int gh_errors;        /* setError calls */
-int gh_started;       /* guarded negotiation steps started / guarded listeners run (each requires TLS_OK) */
-int gh_conts;         /* continuations registered with QXmppTask::then */
+unsigned gh_sent;        /* payloads handed to XmppSocket::sendData */
+int gh_sent_last;      /* class (XML_<T>) of the last one */
+unsigned gh_disconnects;   /* XmppSocket::disconnectFromHost calls */
+unsigned gh_errors;        /* setError calls */
+unsigned gh_started;       /* guarded negotiation steps started / guarded listeners run (each requires TLS_OK) */
+unsigned gh_conts;         /* continuations registered with QXmppTask::then */
+int gh_ev_last, gh_ev_prev; /* the last two wire-level events: EV_SEND / EV_DISCONNECT / EV_ERROR */
+#define EV_SEND 1
+#define EV_DISCONNECT 2
+#define EV_ERROR 3
 int gh_visit_result;  /* ghost hook of the visit lowering: what the current listener returned */
 bool gh_at_known_site; /* ghost hook: control is at the call site recorded as finding C04-F1 */
+bool gh_known_site_hit; /* ghost: a call site recorded as a finding was executed (only consulted with -DFINDING_EXCLUDED) */
 
 #define ENCRYPTED   (gh_c->d->socket.m_socket->encrypted)
 #define TLS_REQUIRED (gh_c->d->config.d->streamSecurityMode == SEC_TLSRequired)
@@ -20,7 +25,6 @@ bool gh_at_known_site; /* ghost hook: control is at the call site recorded as fi
 #define LISTENER    (gh_c->d->listener)
 /* representation invariant: a listener that exchanges credentials / binds / resumes is installed only under tls_ok */
 #define LISTENER_INV (LISTENER.index < LISTENER_ALTS && (LISTENER.index == IDX_QXmppOutgoingClientPtr || LISTENER.index == IDX_StarttlsManager || TLS_OK))
-#define GH_BOUNDED  (gh_sent >= 0 && gh_sent < 1000 && gh_disconnects >= 0 && gh_disconnects < 1000 && gh_errors >= 0 && gh_errors < 1000 && gh_started >= 0 && gh_started < 1000 && gh_conts >= 0 && gh_conts < 1000)
 #define SENT_NOTHING (gh_sent == __CPROVER_old(gh_sent))
 #define SENT_ONLY_STARTTLS (gh_sent == __CPROVER_old(gh_sent) + 1 && gh_sent_last == XML_StarttlsRequest)
 
@@ -32,25 +36,32 @@ bool gh_at_known_site; /* ghost hook: control is at the call site recorded as fi
 #define KNOWN_SITE (false)
 #endif
 #define GUARD (TLS_OK || KNOWN_SITE)
+/* finding C04-F2 is keyed by the two stanza-dispatch callees of handleElement (one call site each) */
+#ifdef FINDING_EXCLUDED
+#define F2_EXEMPT 1
+#define KNOWN_HIT (gh_known_site_hit)
+#else
+#define F2_EXEMPT 0
+#define KNOWN_HIT (false)
+#endif
 
 /* ---- the wire ------------------------------------------------------------------------------------------------------ */
 bool XmppSocket_sendData(XmppSocket *self, qxml data)
-__CPROVER_requires(gh_sent >= 0 && gh_sent < 1000)
-__CPROVER_assigns(gh_sent, gh_sent_last)
+__CPROVER_assigns(gh_sent, gh_sent_last, gh_ev_last, gh_ev_prev)
 __CPROVER_ensures(gh_sent == __CPROVER_old(gh_sent) + 1 && gh_sent_last == data)
+__CPROVER_ensures(gh_ev_prev == __CPROVER_old(gh_ev_last) && gh_ev_last == EV_SEND)
 ;
 void XmppSocket_disconnectFromHost(XmppSocket *self)
-__CPROVER_requires(gh_disconnects >= 0 && gh_disconnects < 1000)
-__CPROVER_assigns(gh_disconnects)
+__CPROVER_assigns(gh_disconnects, gh_ev_last, gh_ev_prev)
 __CPROVER_ensures(gh_disconnects == __CPROVER_old(gh_disconnects) + 1)
+__CPROVER_ensures(gh_ev_prev == __CPROVER_old(gh_ev_last) && gh_ev_last == EV_DISCONNECT)
 ;
 void QXmppOutgoingClient_setError(QXmppOutgoingClient *self, qstr text, ConnectionError *details)
-__CPROVER_requires(gh_errors >= 0 && gh_errors < 1000)
-__CPROVER_assigns(gh_errors)
+__CPROVER_assigns(gh_errors, gh_ev_last, gh_ev_prev)
 __CPROVER_ensures(gh_errors == __CPROVER_old(gh_errors) + 1)
+__CPROVER_ensures(gh_ev_prev == __CPROVER_old(gh_ev_last) && gh_ev_last == EV_ERROR)
 ;
 qtask qtask_then(qtask t, const QXmppOutgoingClient *context, int continuation)
-__CPROVER_requires(gh_conts >= 0 && gh_conts < 1000)
 __CPROVER_assigns(gh_conts)
 __CPROVER_ensures(gh_conts == __CPROVER_old(gh_conts) + 1)
 ;
@@ -76,9 +87,8 @@ __CPROVER_ensures(d->listener.index == IDX_SaslManager && __CPROVER_return_value
 #define GUARDED_STEP(LISTENER_POST) \
 __CPROVER_requires(self == gh_c) \
 __CPROVER_requires(GUARD) \
-__CPROVER_requires(gh_started >= 0 && gh_started < 1000 && gh_sent >= 0 && gh_sent < 1000) \
 __CPROVER_assigns(gh_started, gh_sent, gh_sent_last, gh_conts, self->d->listener) \
-__CPROVER_ensures(gh_started == __CPROVER_old(gh_started) + 1 && gh_sent >= __CPROVER_old(gh_sent)) \
+__CPROVER_ensures(gh_started == __CPROVER_old(gh_started) + 1) \
 __CPROVER_ensures(LISTENER_POST)
 
 void QXmppOutgoingClient_startNonSaslAuth(QXmppOutgoingClient *self)
@@ -99,23 +109,20 @@ GUARDED_STEP(self->d->listener.index == IDX_C2sStreamManagerPtr)
 void QXmppOutgoingClient_openSession(QXmppOutgoingClient *self)
 __CPROVER_requires(self == gh_c)
 __CPROVER_requires(GUARD)
-__CPROVER_requires(gh_started >= 0 && gh_started < 1000 && gh_sent >= 0 && gh_sent < 1000)
 __CPROVER_assigns(gh_started, gh_sent, gh_sent_last)
-__CPROVER_ensures(gh_started == __CPROVER_old(gh_started) + 1 && gh_sent >= __CPROVER_old(gh_sent))
+__CPROVER_ensures(gh_started == __CPROVER_old(gh_started) + 1)
 ;
 qtask SaslManager_authenticate(SaslManager *self, const QXmppConfiguration *config, qstrlist mechanisms, QXmppOutgoingClient *loggable)
 __CPROVER_requires(GUARD)
-__CPROVER_requires(gh_started >= 0 && gh_started < 1000 && gh_sent >= 0 && gh_sent < 1000)
 __CPROVER_assigns(gh_started, gh_sent, gh_sent_last)
-__CPROVER_ensures(gh_started == __CPROVER_old(gh_started) + 1 && gh_sent >= __CPROVER_old(gh_sent))
+__CPROVER_ensures(gh_started == __CPROVER_old(gh_started) + 1)
 ;
 
 /* ---- the other listeners: they answer the server with credentials / bind / resend stanzas => require tls_ok ---------- */
 #define GUARDED_LISTENER \
 __CPROVER_requires(GUARD) \
-__CPROVER_requires(gh_started >= 0 && gh_started < 1000 && gh_sent >= 0 && gh_sent < 1000) \
 __CPROVER_assigns(gh_started, gh_sent, gh_sent_last) \
-__CPROVER_ensures(gh_started == __CPROVER_old(gh_started) + 1 && gh_sent >= __CPROVER_old(gh_sent)) \
+__CPROVER_ensures(gh_started == __CPROVER_old(gh_started) + 1) \
 __CPROVER_ensures(__CPROVER_return_value == HER_Accepted || __CPROVER_return_value == HER_Rejected || __CPROVER_return_value == HER_Finished)
 
 int NonSaslAuthManager_handleElement(NonSaslAuthManager *self, qdom el)
@@ -142,3 +149,33 @@ bool C2sStreamManager_canRequestResume(const C2sStreamManager *self) __CPROVER_r
 bool C2sStreamManager_canRequestEnable(const C2sStreamManager *self) __CPROVER_requires(1) __CPROVER_assigns() __CPROVER_ensures(1);
 void CsiManager_onStreamFeatures(CsiManager *self, const QXmppStreamFeatures *features) __CPROVER_requires(1) __CPROVER_assigns(self->opaque) __CPROVER_ensures(1);
 void PingManager_onDataReceived(PingManager *self) __CPROVER_requires(1) __CPROVER_assigns(self->opaque) __CPROVER_ensures(1);
+
+/* ---- callees of QXmppOutgoingClient::handleElement ----------------------------------------------------------------- */
+/* stream-management bookkeeping: counts stanzas, processes <a/>, answers <r/> with an <a/> nonza (no stanza, no credential; not counted) */
+bool StreamAckManager_handleStanza(StreamAckManager *self, qdom el) __CPROVER_requires(1) __CPROVER_assigns(self->opaque) __CPROVER_ensures(1);
+/* completes the pending request the element answers (its continuation belongs to whoever sent the request); transmits nothing itself */
+bool OutgoingIqManager_handleStanza(OutgoingIqManager *self, qdom el) __CPROVER_requires(1) __CPROVER_assigns(self->opaque) __CPROVER_ensures(1);
+void QXmppStreamFeatures_parse(QXmppStreamFeatures *self, qdom el) __CPROVER_requires(1) __CPROVER_assigns(__CPROVER_object_whole(self->d)) __CPROVER_ensures(1);
+void StreamErrorElement_fromDom(StreamErrorResult *_ret, qdom el) __CPROVER_requires(1) __CPROVER_assigns(*_ret) __CPROVER_ensures(1);
+void QXmppOutgoingClient_handleStreamError(QXmppOutgoingClient *self, const StreamErrorElement *streamError)
+__CPROVER_assigns(gh_errors, gh_disconnects, gh_ev_last, gh_ev_prev)
+__CPROVER_ensures(gh_errors - __CPROVER_old(gh_errors) <= 1u && gh_disconnects - __CPROVER_old(gh_disconnects) <= 1u)
+;
+
+/* stanza dispatch: the application (QXmppClient and its extensions, via the elementReceived signal) and the built-in fallback
+   (handleStanza: error reply to unknown IQ requests) answer the peer with stanzas => require tls_ok.
+   Finding C04-F2 is keyed by these two callees, each of which has exactly one call site (handleElement; checked by the inventory). */
+#define STANZA_DISPATCH \
+__CPROVER_requires(self == gh_c) \
+__CPROVER_requires(TLS_OK || F2_EXEMPT) \
+
+void QXmppOutgoingClient_elementReceived(QXmppOutgoingClient *self, qdom element, bool *handled)
+STANZA_DISPATCH
+__CPROVER_assigns(*handled, gh_started, gh_sent, gh_sent_last, gh_known_site_hit)
+__CPROVER_ensures(gh_started == __CPROVER_old(gh_started) + 1 && gh_sent >= __CPROVER_old(gh_sent) && gh_known_site_hit == (__CPROVER_old(gh_known_site_hit) || !TLS_OK))
+;
+bool QXmppOutgoingClient_handleStanza(QXmppOutgoingClient *self, qdom stanza)
+STANZA_DISPATCH
+__CPROVER_assigns(gh_started, gh_sent, gh_sent_last, gh_known_site_hit)
+__CPROVER_ensures(gh_started == __CPROVER_old(gh_started) + 1 && gh_sent >= __CPROVER_old(gh_sent) && gh_known_site_hit == (__CPROVER_old(gh_known_site_hit) || !TLS_OK))
+;
